@@ -21,7 +21,7 @@ from .npint import SNp
 
 warnings.simplefilter("ignore")
 FAIL = []
-COUNT = {"sint": 0, "snp": 0, "sfloat": 0, "struct": 0}
+COUNT = {"sint": 0, "snp": 0, "sfloat": 0, "struct": 0, "absint": 0}
 
 
 def _val(e):
@@ -222,7 +222,49 @@ def check_sfloat():
                 FAIL.append(("sfloat", "round", k, a))
 
 
+def check_struct():
+    """the struct.pack('<nI') model of harness/c17.py against the real struct (both byte orders, out-of-range words)"""
+    from harness import c17
+
+    rnd = random.Random(5)
+    for order in ("<", ">", "=", ""):
+        for n in (0, 1, 2, 5):
+            for _ in range(6):
+                ws = [rnd.choice([0, 1, 0xFFFFFFFF, 0x80000000, 0x01020304, rnd.getrandbits(32)]) for _ in range(n)]
+                fmt = "%s%dI" % (order, n)
+                COUNT["struct"] += 1
+                want = list(struct.unpack("<%dI" % n, struct.pack(fmt, *ws)))
+                got = [_val(core.L(w)) for w in c17._words(c17._SStruct.pack(fmt, *ws))]
+                if got != want:
+                    FAIL.append(("struct", fmt, ws, got, want))
+    for bad in (-1, 1 << 32):
+        COUNT["struct"] += 1
+        try:
+            c17._SStruct.pack("<1I", bad)
+            FAIL.append(("struct", "out of range accepted", bad))
+        except struct.error:
+            pass
+
+
+def check_absint():
+    """the interval / power-of-two abstract interpreter behind the bit-hull inference: evaluated bounds and divisibility must contain the value"""
+    rnd = random.Random(7)
+    x, y = z3.Int("x"), z3.Int("y")
+    bounds = {"x": (0, 40), "y": (1, 3)}
+    terms = [x * 64, (x - 1) / 2 * 64, (y - 1) % 2, ((y - 1) / 2) * 512, x * 4 + y * 16, z3.If(x > 3, x * 8, 16), x % 8 * 2, -x, x - y, (x + y) * 6, x / 4 * 4]
+    for t in terms:
+        lo, hi, tz = core._absint(t, bounds, {})
+        for _ in range(40):
+            vx, vy = rnd.randint(0, 40), rnd.randint(1, 3)
+            v = _val(z3.substitute(t, (x, z3.IntVal(vx)), (y, z3.IntVal(vy))))
+            COUNT["absint"] += 1
+            if (lo is not None and v < lo) or (hi is not None and v > hi) or v % (1 << min(tz, 62)) != 0:
+                FAIL.append(("absint", str(t), vx, vy, v, lo, hi, tz))
+
+
 def main():
+    check_struct()
+    check_absint()
     check_sint()
     check_snp()
     check_sfloat()
